@@ -1,18 +1,20 @@
 import Dnp3.Proofs.NoPanicOutstation
 import Dnp3.Proofs.Database
 /-!
-# The counter-underflow cause of `outstation_step_panic_cause` is impossible (D3 repaired)
+# The outstation session model never panics (D1 and D3 repaired)
 
-`Proofs/NoPanicOutstation.lean` treats the database as opaque and names two causes of a panic of the
-session model: D1 and `CounterUnderflow s.db` (`Db.unwrittenClasses = none` on a database reachable from
+`Proofs/NoPanicOutstation.lean` treats the database as opaque and names the one cause of a panic the
+session model has left: `CounterUnderflow s.db` (`Db.unwrittenClasses = none` on a database reachable from
 `s.db` by the operations the session applies).  Here the database model is opened:
 
 * `dbReach_iff_run`: `DbReach` is exactly the closure under the seven database operations `DbOp`
   (`add`, `update`, `select`, `write`, `unsol`, `clear`, `reset`) — the reachability of the component
   theorems (`DbProofs.run`);
 * `dbReach_counters`: it preserves `CountersExact`; `no_counterUnderflow`: exact counters exclude the
-  underflow; so every state whose database has exact counters — every state of every trace from
-  construction (`reachable_dead_or_counters`) — panics through D1 only.
+  underflow; so a step from any state whose database has exact counters does not panic
+  (`outstation_step_no_panic_of_counters`), every state of every trace from construction is alive with exact
+  counters (`reachable_alive_counters`), and no step from such a state panics or kills the task
+  (`outstation_reachable_no_panic`).
 -/
 namespace Dnp3.Proofs.NoPanicOutstation
 open Dnp3 Dnp3.DbProofs
@@ -72,54 +74,49 @@ theorem no_counterUnderflow_of_fresh (evMax : Nat) (sel : Option Nat) {db : Db}
     (h : DbReach (Db.new evMax sel) db) : ¬ CounterUnderflow db :=
   no_counterUnderflow (dbReach_counters (new_counters evMax sel) h)
 
-/-- **No panic except D1**, one step from ANY state whose database has exact counters -/
+/-- **No panic**, one step from ANY state whose database has exact counters; a live task stays alive -/
 theorem outstation_step_no_panic_of_counters (env : OEnv) (s : OState) (i : OInput)
-    (hdb : CountersExact s.db) (hp : OOut.panic ∈ (Outstation.step env s i).2) :
-    ∃ data, ((∃ src dst, i = .rx src dst data) ∨ (∃ f, s.pending = some f ∧ f.data = data)) ∧
-        OperateEchoOverflows s.cfg.sol data := by
-  rcases outstation_step_panic_cause env s i hp with h | h
-  · exact h
-  · exact absurd h (no_counterUnderflow hdb)
+    (hdb : CountersExact s.db) :
+    OOut.panic ∉ (Outstation.step env s i).2 ∧ (s.mode ≠ .dead → (Outstation.step env s i).1.mode ≠ .dead) :=
+  outstation_no_panic_of_db env s i (fun _ hr hu => no_counterUnderflow hdb ⟨_, hr, hu⟩)
 
-/-- the invariant is kept by every step (or the task is dead, and then nothing ever runs again) -/
-theorem step_dead_or_counters (env : OEnv) (s : OState) (i : OInput) (h : s.mode = .dead ∨ CountersExact s.db) :
-    (Outstation.step env s i).1.mode = .dead ∨ CountersExact (Outstation.step env s i).1.db := by
-  rcases h with h | h
-  · exact Or.inl (step_of_dead env s i h).1
-  · rcases step_dead_or_reach env s i with h' | h'
-    · exact Or.inl h'
-    · exact Or.inr (dbReach_counters h h')
+/-- the start-up pass (construction until the task first blocks) does not panic and leaves the task alive,
+    with a database with exact counters -/
+theorem start_alive_counters (cfg : OCfg) (evMax : Nat) :
+    OOut.panic ∉ (Outstation.start cfg evMax).2 ∧ (Outstation.start cfg evMax).1.mode ≠ .dead ∧
+      CountersExact (Outstation.start cfg evMax).1.db := by
+  have hnp : OOut.panic ∉ (Outstation.start cfg evMax).2 := fun hp =>
+    no_counterUnderflow (new_counters evMax none) (start_panic_cause cfg evMax hp)
+  have hal : (Outstation.start cfg evMax).1.mode ≠ .dead := fun hd => hnp (start_dead_only_by_panic cfg evMax hd)
+  refine ⟨hnp, hal, ?_⟩
+  rcases start_dead_or_reach cfg evMax with h | h
+  · exact absurd h hal
+  · exact dbReach_counters (new_counters evMax none) h
 
-/-- every state of every trace from construction: dead, or its database has exact counters -/
-theorem reachable_dead_or_counters {cfg : OCfg} {evMax : Nat} {env : OEnv} {s : OState}
-    (h : Outstation.Reachable cfg evMax env s) : s.mode = .dead ∨ CountersExact s.db := by
+/-- the invariant is kept by every step -/
+theorem step_alive_counters (env : OEnv) (s : OState) (i : OInput) (h : s.mode ≠ .dead ∧ CountersExact s.db) :
+    (Outstation.step env s i).1.mode ≠ .dead ∧ CountersExact (Outstation.step env s i).1.db := by
+  have hal := (outstation_step_no_panic_of_counters env s i h.2).2 h.1
+  refine ⟨hal, ?_⟩
+  rcases step_dead_or_reach env s i with h' | h'
+  · exact absurd h' hal
+  · exact dbReach_counters h.2 h'
+
+/-- every state of every trace from construction: the task is alive and its database has exact counters -/
+theorem reachable_alive_counters {cfg : OCfg} {evMax : Nat} {env : OEnv} {s : OState}
+    (h : Outstation.Reachable cfg evMax env s) : s.mode ≠ .dead ∧ CountersExact s.db := by
   induction h with
-  | start =>
-    rcases start_dead_or_reach cfg evMax with h | h
-    · exact Or.inl h
-    · exact Or.inr (dbReach_counters (new_counters evMax none) h)
-  | step s i _ ih => exact step_dead_or_counters env s i ih
+  | start => exact (start_alive_counters cfg evMax).2
+  | step s i _ ih => exact step_alive_counters env s i ih
 
-/-- **No panic except D1** on every trace from construction: if a step from a reachable state panics,
-    the fragment being handled is an OPERATE of control headers whose echo overflows the solicited buffer -/
-theorem outstation_reachable_no_panic_partial {cfg : OCfg} {evMax : Nat} {env : OEnv} {s : OState}
-    (hr : Outstation.Reachable cfg evMax env s) (i : OInput)
-    (hp : OOut.panic ∈ (Outstation.step env s i).2) :
-    ∃ data, ((∃ src dst, i = .rx src dst data) ∨ (∃ f, s.pending = some f ∧ f.data = data)) ∧
-        OperateEchoOverflows s.cfg.sol data := by
-  rcases reachable_dead_or_counters hr with h | h
-  · rw [(step_of_dead env s i h).2] at hp; cases hp
-  · exact outstation_step_no_panic_of_counters env s i h hp
-
-/-- no D1 fragment at hand ⇒ a step from a reachable state does not panic -/
-theorem outstation_reachable_no_panic_of_fits {cfg : OCfg} {evMax : Nat} {env : OEnv} {s : OState}
-    (hr : Outstation.Reachable cfg evMax env s) (i : OInput)
-    (hfit : ∀ data, ((∃ src dst, i = .rx src dst data) ∨ (∃ f, s.pending = some f ∧ f.data = data)) →
-      ¬ OperateEchoOverflows s.cfg.sol data) :
-    OOut.panic ∉ (Outstation.step env s i).2 := by
-  intro hp
-  obtain ⟨data, hd, ho⟩ := outstation_reachable_no_panic_partial hr i hp
-  exact hfit data hd ho
+/-- **No panic, unconditionally**, on every trace from construction: a step from a reachable state — any
+    configuration, any event-buffer size, any history, any input — neither emits `panic` nor leaves the task dead -/
+theorem outstation_reachable_no_panic {cfg : OCfg} {evMax : Nat} {env : OEnv} {s : OState}
+    (hr : Outstation.Reachable cfg evMax env s) (i : OInput) :
+    OOut.panic ∉ (Outstation.step env s i).2 ∧ (Outstation.step env s i).1.mode ≠ .dead := by
+  obtain ⟨hal, hdb⟩ := reachable_alive_counters hr
+  have := outstation_step_no_panic_of_counters env s i hdb
+  exact ⟨this.1, this.2 hal⟩
 
 /-- the state in which the former D3 witness left the session is reachable from construction -/
 theorem reachable_run {cfg : OCfg} {evMax : Nat} {env : OEnv} (is : List OInput) :
@@ -130,5 +127,8 @@ theorem reachable_run {cfg : OCfg} {evMax : Nat} {env : OEnv} (is : List OInput)
 
 theorem d3State_reachable : Outstation.Reachable { unsolicited := true } 1 {} d3State :=
   reachable_run d3Inputs .start
+
+/-- the state in which the former D1 witness arrives (the freshly started session) is reachable -/
+theorem d1State_reachable : Outstation.Reachable { sol := 249 } 10 {} d1State := .start
 
 end Dnp3.Proofs.NoPanicOutstation
